@@ -66,7 +66,40 @@ type awReqSpec struct {
 	m, a, p int
 	hflags  int // 1: Hysteria-Auth, 2: Hysteria-CC-RX, 4: Hysteria-Padding
 	cred    string
-	big     int // index into awBigHeaders: a LARGE extra header set (0 = none); optional 6th field "b<k>"
+	big     int // index into awBigHeaders: a LARGE extra header set (0 = none); optional field "b<k>"
+	odd     int // index into awOddHeaders: odd values of the Hysteria-* request headers (0 = none); optional field "o<k>"
+}
+
+// awOddHeaders: odd shapes of the three Hysteria-* request headers (append-only: corpus files index it).  A non-nil
+// list REPLACES what hflags would send for that header (several entries = the header repeated; {} = header absent).
+// None of this may change how a request that is not an accepted authentication is answered: the server must not
+// parse-and-complain, it hands the request to the masquerade handler (Hysteria-CC-RX is parsed leniently: junk = 0).
+var awOddHeaders = []struct {
+	auth, ccrx, pad []string
+}{
+	{},
+	{ccrx: []string{"10 mbps"}},                        // 1 non-numeric
+	{ccrx: []string{"-1"}},                             // 2 negative
+	{ccrx: []string{"0x10"}},                           // 3 hex
+	{ccrx: []string{"auto"}},                           // 4 the RESPONSE's special value
+	{ccrx: []string{"18446744073709551616"}},           // 5 2^64: overflow
+	{ccrx: []string{""}},                               // 6 present but empty
+	{ccrx: []string{"1.5e6"}},                          // 7 float
+	{ccrx: []string{"100", "abc"}},                     // 8 repeated: good then junk
+	{ccrx: []string{"abc", "100"}},                     // 9 repeated: junk then good
+	{ccrx: []string{"99999999999999999999999999"}},     // 10 far beyond uint64
+	{ccrx: []string{"+5"}},                             // 11 explicit sign
+	{ccrx: []string{"18446744073709551615"}},           // 12 max uint64 (valid)
+	{pad: []string{""}},                                // 13 empty padding
+	{pad: []string{strings.Repeat("Z", 8000)}},         // 14 huge padding
+	{pad: []string{"a", "b", "c"}},                     // 15 repeated padding
+	{pad: []string{"!#$%&'*+-.^_`|~ ;,=()"}},           // 16 padding outside the alphabet the client draws from
+	{auth: []string{"bad", "ok1"}},                     // 17 repeated credentials, first rejected
+	{auth: []string{strings.Repeat("x", 5000)}},        // 18 huge credentials
+	{auth: []string{""}, ccrx: []string{"NaN"}},        // 19 empty credentials + junk rx
+	{auth: []string{"bad"}, ccrx: []string{"12three"}}, // 20 digits then junk (ASCII only: the driver decodes header text bytewise)
+	{ccrx: []string{"1_000"}},                          // 21 digit separators
+	{ccrx: []string{"  "}},                             // 22 blanks only
 }
 
 // awBigHeaders: extra request headers far larger than an auth request needs, all well below net/http's default
@@ -87,24 +120,34 @@ var awBigHeaders = []struct {
 }
 
 func (s awReqSpec) String() string {
+	out := fmt.Sprintf("%d/%d/%d/%d/%s", s.m, s.a, s.p, s.hflags, awTok(s.cred))
 	if s.big != 0 {
-		return fmt.Sprintf("%d/%d/%d/%d/%s/b%d", s.m, s.a, s.p, s.hflags, awTok(s.cred), s.big)
+		out += fmt.Sprintf("/b%d", s.big)
 	}
-	return fmt.Sprintf("%d/%d/%d/%d/%s", s.m, s.a, s.p, s.hflags, awTok(s.cred))
+	if s.odd != 0 {
+		out += fmt.Sprintf("/o%d", s.odd)
+	}
+	return out
 }
 
 func awParseReqSpec(f string) (awReqSpec, bool) {
 	p := strings.Split(f, "/")
-	if len(p) != 5 && len(p) != 6 {
+	if len(p) < 5 || len(p) > 7 {
 		return awReqSpec{}, false
 	}
 	var s awReqSpec
 	var err error
-	if len(p) == 6 {
-		if len(p[5]) < 2 || p[5][0] != 'b' {
-			return s, false
-		}
-		if s.big, err = strconv.Atoi(p[5][1:]); err != nil || s.big < 1 || s.big >= len(awBigHeaders) {
+	for _, x := range p[5:] {
+		switch {
+		case len(x) >= 2 && x[0] == 'b' && s.big == 0:
+			if s.big, err = strconv.Atoi(x[1:]); err != nil || s.big < 1 || s.big >= len(awBigHeaders) {
+				return s, false
+			}
+		case len(x) >= 2 && x[0] == 'o' && s.odd == 0:
+			if s.odd, err = strconv.Atoi(x[1:]); err != nil || s.odd < 1 || s.odd >= len(awOddHeaders) {
+				return s, false
+			}
+		default:
 			return s, false
 		}
 	}
@@ -131,15 +174,19 @@ func awAuthSpec(cred string) awReqSpec { return awReqSpec{m: 0, a: 0, p: 0, hfla
 
 func (s awReqSpec) headers() [][2]string {
 	var h [][2]string
-	if s.hflags&1 != 0 {
-		h = append(h, [2]string{"hysteria-auth", s.cred})
+	o := awOddHeaders[s.odd]
+	put := func(name string, odd []string, flag int, dflt string) {
+		if odd != nil {
+			for _, v := range odd {
+				h = append(h, [2]string{name, v})
+			}
+		} else if s.hflags&flag != 0 {
+			h = append(h, [2]string{name, dflt})
+		}
 	}
-	if s.hflags&2 != 0 {
-		h = append(h, [2]string{"hysteria-cc-rx", "0"})
-	}
-	if s.hflags&4 != 0 {
-		h = append(h, [2]string{"hysteria-padding", strings.Repeat("p", 300)})
-	}
+	put("hysteria-auth", o.auth, 1, s.cred)
+	put("hysteria-cc-rx", o.ccrx, 2, "0")
+	put("hysteria-padding", o.pad, 4, strings.Repeat("p", 300))
 	if b := awBigHeaders[s.big]; b.n > 0 {
 		for i := 0; i < b.n; i++ {
 			name := b.name
@@ -158,6 +205,12 @@ func (s awReqSpec) headers() [][2]string {
 
 // what the authenticator is handed for this request: the Hysteria-Auth header (or "")
 func (s awReqSpec) authString() string {
+	if o := awOddHeaders[s.odd]; o.auth != nil {
+		if len(o.auth) == 0 {
+			return ""
+		}
+		return o.auth[0] // http.Header.Get: the first value
+	}
 	if s.hflags&1 != 0 {
 		return s.cred
 	}
@@ -971,7 +1024,8 @@ func (rn *awRunner) authEvent(cl *awClient, kind byte, c int, rest []string, i i
 // ops (stateful; a history runs from `reset` to `end`):
 //
 //	reset <cfg>                       fresh server
-//	req <c> <m>/<a>/<p>/<hflags>/<cred>   one HTTP/3 request on connection c; Out = the whole response
+//	req <c> <m>/<a>/<p>/<hflags>/<cred>[/b<k>][/o<k>]   one HTTP/3 request on connection c (b: large header set, o: odd
+//	                                  Hysteria-* header values); Out = the whole response
 //	stream <c> <kind> <pad> <n>       raw 0x401 stream with a TCPRequest; Out = silent | reply
 //	dgram <c> <n>                     UDPMessage datagram (fire and forget; replies are counted at `end`)
 //	breq <c> <cred>                   auth request whose authenticator call BLOCKS (Out = pending, or the answer if none was made)
@@ -986,12 +1040,22 @@ func (masqComp) Gen(r *vh.RNG, n int, emit func(op string, tags ...string)) {
 	creds := []string{"ok1", "bad", "", "ok2"}
 	// about every fourth request carries a LARGE header set (3 KiB .. 100 KiB, one header or many small ones): every
 	// request below the library's header limit must reach ServeHTTP / the masquerade handler whatever its size
+	// ... and about every third one odd shapes of the Hysteria-* request headers themselves (non-numeric / negative /
+	// overflowing / empty / repeated Hysteria-CC-RX, empty / huge / repeated padding, repeated / huge credentials)
 	big := func(s awReqSpec, tag string) (awReqSpec, []string) {
+		tags := []string{tag}
 		if r.Chance(1, 4) {
 			s.big = 1 + r.Intn(len(awBigHeaders)-1)
-			return s, []string{tag, "bighdr", fmt.Sprintf("bighdr:%d", s.big)}
+			tags = append(tags, "bighdr", fmt.Sprintf("bighdr:%d", s.big))
 		}
-		return s, []string{tag}
+		if r.Chance(1, 3) {
+			s.odd = 1 + r.Intn(len(awOddHeaders)-1)
+			if tag == "shape:accepted" && awOddHeaders[s.odd].auth != nil {
+				s.odd = 1 + r.Intn(12) // keep the accepted credentials: odd Hysteria-CC-RX only
+			}
+			tags = append(tags, "oddhdr", fmt.Sprintf("oddhdr:%d", s.odd))
+		}
+		return s, tags
 	}
 	for emitted := 0; emitted < n; {
 		emit("reset "+awGenCfg(r), "reset")
